@@ -1019,6 +1019,20 @@ fn worktop_run(a: &[&str]) -> String {
             api.per_node.insert((node, BUCKET_GET_AMOUNT_IDENT.to_string()), scrypto_encode(&dec(a[5 + 3 * i])).unwrap());
         }
     }
+    // optional id sets (non-fungible operations): after the two slots `<n> <ids of bucket 80..> <m> <ids asked for..>`
+    let ids_of = |toks: &[&str]| -> IndexSet<NonFungibleLocalId> {
+        toks.iter().map(|t| NonFungibleLocalId::integer(t.parse().unwrap())).collect()
+    };
+    let mut asked: IndexSet<NonFungibleLocalId> = IndexSet::default();
+    if a.len() > 9 {
+        let ne: usize = a[9].parse().unwrap();
+        let held = ids_of(&a[10..10 + ne]);
+        let nq: usize = a[10 + ne].parse().unwrap();
+        asked = ids_of(&a[11 + ne..11 + ne + nq]);
+        api.per_node.insert((mk(80), NON_FUNGIBLE_BUCKET_GET_NON_FUNGIBLE_LOCAL_IDS_IDENT.to_string()), scrypto_encode(&held).unwrap());
+        api.defaults.insert(NON_FUNGIBLE_BUCKET_GET_NON_FUNGIBLE_LOCAL_IDS_IDENT.to_string(), scrypto_encode(&IndexSet::<NonFungibleLocalId>::default()).unwrap());
+        api.defaults.insert(NON_FUNGIBLE_BUCKET_TAKE_NON_FUNGIBLES_IDENT.to_string(), scrypto_encode(&Bucket(Own(mk(92)))).unwrap());
+    }
     api.fields.insert(0u8, scrypto_encode(&worktop).unwrap());
     api.outer_objects.insert(mk(85), res(r).into());
     api.per_node.insert((mk(85), BUCKET_GET_AMOUNT_IDENT.to_string()), scrypto_encode(&x).unwrap());
@@ -1030,6 +1044,12 @@ fn worktop_run(a: &[&str]) -> String {
         "put" => IndexedScryptoValue::from_typed(&WorktopPutInput { bucket: Bucket(Own(mk(85))) }),
         "take" => IndexedScryptoValue::from_typed(&WorktopTakeInput { amount: x, resource_address: res(r) }),
         "take_all" => IndexedScryptoValue::from_typed(&WorktopTakeAllInput { resource_address: res(r) }),
+        "take_non_fungibles" => {
+            IndexedScryptoValue::from_typed(&WorktopTakeNonFungiblesInput { ids: asked.clone(), resource_address: res(r) })
+        }
+        "assert_contains_non_fungibles" => {
+            IndexedScryptoValue::from_typed(&WorktopAssertContainsNonFungiblesInput { resource_address: res(r), ids: asked.clone() })
+        }
         "assert_contains" => IndexedScryptoValue::from_typed(&WorktopAssertContainsInput { resource_address: res(r) }),
         "assert_contains_amount" => {
             IndexedScryptoValue::from_typed(&WorktopAssertContainsAmountInput { resource_address: res(r), amount: x })
@@ -1040,7 +1060,7 @@ fn worktop_run(a: &[&str]) -> String {
     let after: WorktopSubstate = scrypto_decode(&api.fields[&0u8]).unwrap();
     let ret: Vec<i64> = match &out {
         Ok(v) => match op {
-            "take" | "take_all" => vec![node_no(&v.as_typed::<Bucket>().unwrap().0 .0)],
+            "take" | "take_all" | "take_non_fungibles" => vec![node_no(&v.as_typed::<Bucket>().unwrap().0 .0)],
             "drain" => v.as_typed::<Vec<Own>>().unwrap().iter().map(|o| node_no(&o.0)).collect(),
             _ => vec![],
         },
@@ -1233,6 +1253,74 @@ fn pool2_run(a: &[&str]) -> String {
         }
     }
     out.join(" ")
+}
+
+/// next_round_run <stored milli> <stored minute> <epoch> <effective epoch start> <current round> <min rounds> <max rounds>
+///                <target duration> <new round> <proposer timestamp> <n gap leaders> <leader index> <fallback 0|1>
+/// REAL ConsensusManagerBlueprint::next_round over the MockApi field store (3 validators in the statistics). The epoch-change
+/// path needs the validator set / rewards machinery, which is not set up: it shows as `panic`.
+/// Prints `ok <epoch> <round> <effective start> <actual start> <made> <missed>` or `err`.
+fn next_round_run(a: &[&str]) -> String {
+    use radix_common::prelude::*;
+    use radix_engine::blueprints::consensus_manager::*;
+    use radix_engine_interface::blueprints::consensus_manager::*;
+    let n = |i: usize| -> i128 { a[i].parse().unwrap() };
+    let mut api = mock_api::MockApi::default();
+    let put = |api: &mut mock_api::MockApi, f: ConsensusManagerField, bytes: Vec<u8>| {
+        api.fields.insert(f.field_index(), bytes);
+    };
+    put(&mut api, ConsensusManagerField::ProposerMilliTimestamp, scrypto_encode(
+        &ConsensusManagerProposerMilliTimestampFieldPayload::from_latest_version(ProposerMilliTimestampSubstate { epoch_milli: n(0) as i64 })).unwrap());
+    put(&mut api, ConsensusManagerField::ProposerMinuteTimestamp, scrypto_encode(
+        &ConsensusManagerProposerMinuteTimestampFieldPayload::from_latest_version(ProposerMinuteTimestampSubstate { epoch_minute: n(1) as i32 })).unwrap());
+    let mut config = ConsensusManagerConfig::mainnet_genesis();
+    config.epoch_change_condition = EpochChangeCondition {
+        min_round_count: n(5) as u64,
+        max_round_count: n(6) as u64,
+        target_duration_millis: n(7) as u64,
+    };
+    put(&mut api, ConsensusManagerField::Configuration, scrypto_encode(
+        &ConsensusManagerConfigurationFieldPayload::from_latest_version(ConsensusManagerConfigSubstate { config })).unwrap());
+    put(&mut api, ConsensusManagerField::State, scrypto_encode(
+        &ConsensusManagerStateFieldPayload::from_latest_version(ConsensusManagerSubstate {
+            started: true,
+            epoch: Epoch::of(n(2) as u64),
+            effective_epoch_start_milli: n(3) as i64,
+            actual_epoch_start_milli: n(3) as i64,
+            round: Round::of(n(4) as u64),
+            current_leader: None,
+        })).unwrap());
+    put(&mut api, ConsensusManagerField::CurrentProposalStatistic, scrypto_encode(
+        &ConsensusManagerCurrentProposalStatisticFieldPayload::from_latest_version(CurrentProposalStatisticSubstate {
+            validator_statistics: vec![ProposalStatistic { made: 0, missed: 0 }; 3],
+        })).unwrap());
+    let history = LeaderProposalHistory {
+        gap_round_leaders: vec![0; n(10) as usize],
+        current_leader: n(11) as ValidatorIndex,
+        is_fallback: n(12) == 1,
+    };
+    match verif_next_round(Round::of(n(8) as u64), n(9) as i64, history, &mut api) {
+        Ok(()) => {
+            let st: ConsensusManagerStateFieldPayload =
+                scrypto_decode(&api.fields[&ConsensusManagerField::State.field_index()]).unwrap();
+            let st = st.fully_update_and_into_latest_version();
+            let ps: ConsensusManagerCurrentProposalStatisticFieldPayload =
+                scrypto_decode(&api.fields[&ConsensusManagerField::CurrentProposalStatistic.field_index()]).unwrap();
+            let ps = ps.fully_update_and_into_latest_version();
+            let made: u64 = ps.validator_statistics.iter().map(|x| x.made).sum();
+            let missed: u64 = ps.validator_statistics.iter().map(|x| x.missed).sum();
+            format!(
+                "ok {} {} {} {} {} {}",
+                st.epoch.number(),
+                st.round.number(),
+                st.effective_epoch_start_milli,
+                st.actual_epoch_start_milli,
+                made,
+                missed
+            )
+        }
+        Err(_) => "err".to_string(),
+    }
 }
 
 /// authzone_run <kind rule|amount> <rk 0 NF|1 Resource> <rr> <ri> <amount attos> <dcp_some> <dcp> <gck> <gca> <g zone|-1>
@@ -1455,7 +1543,20 @@ fn auth_run(a: &[&str]) -> String {
 
 fn run(a: &[&str]) -> String {
     match a[0] {
+        "epoch_change" => {
+            use radix_engine_interface::blueprints::consensus_manager::*;
+            let c = EpochChangeCondition {
+                min_round_count: a[1].parse().unwrap(),
+                max_round_count: a[2].parse().unwrap(),
+                target_duration_millis: a[3].parse().unwrap(),
+            };
+            match c.should_epoch_change(a[4].parse().unwrap(), a[5].parse().unwrap(), radix_common::types::Round::of(a[6].parse().unwrap())) {
+                EpochChangeOutcome::NoChange => "none".to_string(),
+                EpochChangeOutcome::Change { next_epoch_effective_start_millis } => format!("some {}", next_epoch_effective_start_millis),
+            }
+        }
         "auth_run" => auth_run(&a[1..]),
+        "next_round_run" => next_round_run(&a[1..]),
         "pool2_run" => pool2_run(&a[1..]),
         "pool1_contribute" => pool1_contribute(&a[1..]),
         "worktop_run" => worktop_run(&a[1..]),
